@@ -19,7 +19,7 @@ func init() { core.Register(c19{}) }
 func (c19) ID() string    { return "C19" }
 func (c19) Level() string { return "exploration" }
 func (c19) Rule() string {
-	return "(a) totality: component_definition.NewProperty is called under recover() on seeded arbitrary byte strings (uniform bytes; strings over the grammar's own alphabet ',= [](){}:$#\"' and letters; structured tags mutated by byte insertion / deletion / duplication / bracket unbalancing), 64 strings per case; every accessor (TagVal, Args().Find/Has/String, IsRequired) is exercised too. (b) faithfulness: structured tags 'v,n1=a b,n2=[x,y] z,...' generated from a grammar (value with optional bracketed groups / placeholders with defaults, 0..5 uniquely named arguments, items that are plain tokens or balanced bracket groups containing commas and spaces) are parsed by an independent reference parser (depth-counting scanner); TagVal must equal the text before the first top-level comma, Find(name) and Find(Title(name)) must return the items, bracketed groups must be intact; IsRequired() must be false iff an explicit required=false / Required=false item is present. (c) end-to-end: reflect.StructOf holders carrying generated wire / value / prop tags with extra arguments are started on the real container and must behave as the parsed arguments say (optional vs required unsatisfiable points; prop shorthand with bracketed defaults). non-trivial = structured tag with >= 2 arguments and a bracketed group, or a mutated string that still parses to >= 1 argument; distinct = the tag string; isolated family: a user post-processor relaxing its own tag's points via SetArg must not relax a point of another tag with the byte-identical tag value, in this or later starts; empty argument items and empty-valued known arguments end-to-end; AddArg / SetArg under either spelling of the key; empty value part followed by arguments end-to-end; formatting the property between parsing and reading"
+	return "(a) totality: component_definition.NewProperty is called under recover() on seeded arbitrary byte strings (uniform bytes; strings over the grammar's own alphabet ',= [](){}:$#\"' and letters; structured tags mutated by byte insertion / deletion / duplication / bracket unbalancing), 64 strings per case; every accessor (TagVal, Args().Find/Has/String, IsRequired) is exercised too. (b) faithfulness: structured tags 'v,n1=a b,n2=[x,y] z,...' generated from a grammar (value with optional bracketed groups / placeholders with defaults, 0..5 uniquely named arguments, items that are plain tokens or balanced bracket groups containing commas and spaces) are parsed by an independent reference parser (depth-counting scanner); TagVal must equal the text before the first top-level comma, Find(name) and Find(Title(name)) must return the items, bracketed groups must be intact; IsRequired() must be false iff an explicit required=false / Required=false item is present. (c) end-to-end: reflect.StructOf holders carrying generated wire / value / prop tags with extra arguments are started on the real container and must behave as the parsed arguments say (optional vs required unsatisfiable points; prop shorthand with bracketed defaults). non-trivial = structured tag with >= 2 arguments and a bracketed group, or a mutated string that still parses to >= 1 argument; distinct = the tag string; isolated family: a user post-processor relaxing its own tag's points via SetArg must not relax a point of another tag with the byte-identical tag value, in this or later starts; empty argument items and empty-valued known arguments end-to-end; AddArg / SetArg under either spelling of the key; empty value part followed by arguments end-to-end; formatting the property between parsing and reading; crowd family: 6..25 components with prop tags in one application, every point bound per its own tag"
 }
 func (c19) Assumptions() []string {
 	return []string{
@@ -473,6 +473,10 @@ func (p c19) emptyValue(c *core.Ctx) {
 }
 
 func (p c19) e2e(c *core.Ctx) {
+	if c.Index%5 == 1 && c.Index%3 == 0 {
+		p.crowd(c)
+		return
+	}
 	if c.Index%5 == 2 {
 		p.isolated(c)
 		return
@@ -558,6 +562,66 @@ func (p c19) e2e(c *core.Ctx) {
 		}
 	}
 	c.Nontrivial("e2e:" + tag)
+}
+
+// crowd: many components carrying prop tags in one application (their definitions are scanned side by
+// side): every tag is parsed into its own value part and its own arguments.
+func (p c19) crowd(c *core.Ctx) {
+	n := 6 + c.Rng.Intn(20)
+	type exp struct {
+		holder, field int
+		want          string
+		tag           string
+	}
+	var holders []any
+	var exps []exp
+	doc := ""
+	for i := 0; i < n; i++ {
+		var fields []world.FieldSpec
+		for j := 0; j < 1+c.Rng.Intn(3); j++ {
+			key := fmt.Sprintf("crowd.c%dx%d", i, j)
+			want := ""
+			inner := key
+			switch c.Rng.Intn(4) {
+			case 0: // configured
+				want = fmt.Sprintf("configured-%d-%d", i, j)
+				doc += fmt.Sprintf("crowd.c%dx%d: %s\n", i, j, want)
+			case 1: // configured, a default is stated too
+				want = fmt.Sprintf("configured-%d-%d", i, j)
+				doc += fmt.Sprintf("crowd.c%dx%d: %s\n", i, j, want)
+				inner += fmt.Sprintf(":unused-default-%d", i)
+			case 2: // default
+				want = fmt.Sprintf("default-of-%d-%d", i, j)
+				inner += ":" + want
+			default: // nothing: optional, stays empty
+				inner += ",required=false"
+			}
+			if c.Rng.Intn(2) == 0 {
+				inner += []string{",note=[a,b] c", ",x=1 2", ",Zed"}[c.Rng.Intn(3)]
+			}
+			tag := world.WireTag("prop", inner)
+			fields = append(fields, world.FieldSpec{Name: fmt.Sprintf("F%dx%d", i, j), Type: reflect.TypeOf(""), Tag: tag})
+			exps = append(exps, exp{i, j, want, tag})
+		}
+		holders = append(holders, world.NewHolder(world.BuildStruct(fields)))
+	}
+	sc := &world.Scenario{Config: doc}
+	r := world.Start(sc, world.Options{Extra: holders, NoTracer: true})
+	c.Count("e2e_starts", 1)
+	c.Count("crowd_starts", 1)
+	if r.Outcome() != "ok" {
+		c.Fail("", fmt.Sprintf("%d components with satisfiable or optional prop tags: start %s", n, core.Short(r.OutcomeDetail(), 400)), map[string]any{"config": doc})
+		return
+	}
+	for _, e := range exps {
+		got := reflect.ValueOf(holders[e.holder]).Elem().Field(e.field).String()
+		if got != e.want {
+			c.Fail("", fmt.Sprintf("one of %d components with prop tags: field tagged %s holds %q, expected %q", n, e.tag, got, e.want), map[string]any{"config": doc})
+			return
+		}
+	}
+	c.Count("crowd_prop_points_checked", len(exps))
+	c.Nontrivial(fmt.Sprintf("crowd:%d:%s", n, doc))
 }
 
 type userScanner struct {
